@@ -803,8 +803,45 @@ fn gen_tiny(rng: &mut Rng) -> TScript {
     TScript { size, samples, fpr_bits: fpr.to_bits(), ctor, seeds: [rng.next(), rng.next(), rng.next(), rng.next()], ops }
 }
 
+/// Large sketches: every counter position of every row is touched (hashes 0..2*width), so a
+/// width that is not a power of two, or rows shorter than the mask, cannot hide behind the
+/// 1-in-65536 chance of a random hash landing on the bad position.
+pub fn large_sketch_sweep(prop: &str, out: &mut ShardOut, sizes: &[usize]) {
+    for &size in sizes {
+        let r = guarded(|| {
+            let mut t = TinyLFU::<u64>::new(size, 20_000_000, 0.01).map_err(|e| format!("{:?}", e))?;
+            let width = (size as u64).next_power_of_two().max(2);
+            let mut worst: Option<String> = None;
+            for h in 0..(2 * width) {
+                t.increment_hashed_key(h);
+                t.increment_hashed_key(h);
+                let e = t.estimate_hashed_key(h);
+                if !(2..=16).contains(&e) && worst.is_none() {
+                    worst = Some(format!("size {}: hash {} recorded twice, estimate {}", size, h, e));
+                }
+            }
+            Ok::<_, String>(worst)
+        });
+        out.cov.monitored += 1;
+        out.cov.steps += 4 * (size as u64).next_power_of_two();
+        out.cov.triples.insert(format!("sweep|tinylfu|size{}", size));
+        let d = match r {
+            Err(p) => Some(("panic", format!("TinyLFU::new({}, ..): sweeping all counter positions panicked: {}", size, p))),
+            Ok(Err(_)) => None,
+            Ok(Ok(Some(w))) => Some(("under-count", w)),
+            Ok(Ok(None)) => None,
+        };
+        if let Some((rule, d)) = d {
+            out.add(found(prop, rule, &format!("tinylfu|sweep{}", size), d, String::new(), 0));
+        }
+    }
+}
+
 pub fn c11_suite(ctx: &Ctx) -> ShardOut {
     let mut out = ShardOut::default();
+    if ctx.shard == 0 && !cfg!(miri) {
+        large_sketch_sweep("C11", &mut out, &[65537, 131073, (1 << 18) + 1, 70000, 1 << 17]);
+    }
     let mut rng = Rng::new(mix(ctx.seed, 0xC11) ^ ctx.shard.wrapping_mul(0x9E37));
     let deadline = Instant::now() + std::time::Duration::from_secs(ctx.max_secs);
     let s0 = [1u64, 2, 3, 4];
